@@ -284,6 +284,9 @@ def clustering(
             headers=platforms,
             tablefmt="simple_grid",
             floatfmt=".2f",
+            # The cells are formatted already; a platform named "2024.1"
+            # or "1e3" must not be re-formatted as a number.
+            disable_numparse=True,
         ),
     ]
 
